@@ -620,3 +620,10 @@ REG.cases[(_SW + '_stripws_default', 'shape: ws A ws ws B ws')].ensures = [
 STRIPWS_SHAPE_CASES = [(_SW + '_stripws_identifierlist', 'shape: A ws ws , ws B ws , ws ws C'),
                        (_SW + '_stripws_parenthesis', 'shape: ( ws ws X ws Y ws ws )'),
                        (_SW + '_stripws_default', 'shape: ws A ws ws B ws')]
+
+
+for _nw, _we in ((1, True),):
+    _case = 'shape: %d WHEN%s' % (_nw, ' + ELSE' if _we else '')
+    _site_contract(_RF + '_process_case', {'self': make_reindent, 'tlist': make_case_shape(_nw, _we)}, case=_case,
+                   serves=('C06', 'C07'))
+    CASE_LAYOUT_CASES.append((_RF + '_process_case', _case))
